@@ -157,6 +157,10 @@ func (ex *Exec) block(pred func() bool, what string) {
 		cur.pred, cur.what, cur.where = pred, what, ex.where(ex.X.curFrame)
 		others := ex.runnableOthers()
 		if len(others) == 0 {
+			if ex.fireTimer() {
+				cur.pred = nil
+				continue // time passed: a timer fired, look again
+			}
 			cur.pred = nil
 			ex.raiseDeadlock()
 		}
@@ -221,6 +225,9 @@ func (ex *Exec) settle() {
 			}
 		}
 		if next == nil {
+			if ex.fireTimer() {
+				continue
+			}
 			return
 		}
 		cur.settling, cur.what = true, "settle"
@@ -274,4 +281,31 @@ func (ex *Exec) killAll() {
 		}
 	}
 	s.host.Wait()
+}
+
+
+// Lazy timers (vSetOpt "lazyTimers"): a time.Timer does not fire while anything can
+// still run; when every goroutine is blocked the oldest armed timer fires ("time
+// passes only when nothing else happens"). The default model is the other extreme:
+// a timer may fire as soon as it is armed.
+func (ex *Exec) fireTimer() bool {
+	for len(ex.pendingTimers) > 0 {
+		c := ex.pendingTimers[0]
+		ex.pendingTimers = ex.pendingTimers[1:]
+		if len(c.Buf) == 0 {
+			c.Buf = []Value{ex.zero(c.ET)}
+			return true
+		}
+	}
+	return false
+}
+
+func (ex *Exec) disarmTimer(c *ChanObj) bool {
+	for i, p := range ex.pendingTimers {
+		if p == c {
+			ex.pendingTimers = append(ex.pendingTimers[:i:i], ex.pendingTimers[i+1:]...)
+			return true
+		}
+	}
+	return false
 }
